@@ -34,6 +34,7 @@ type Obligation struct {
 	Results     []Val
 	ResultTerms []string
 	Splits      []string // branch conditions on the way to this obligation (case-split fallback)
+	CoverGroup  string   // covers: at least one member of the group must be reachable
 }
 
 type arrInfo struct {
@@ -155,6 +156,7 @@ type Exec struct {
 	lastSpecKey, lastSpecName string
 	siteVars  map[string]Val
 	forallVars map[string]Val
+	unboundSites map[string]bool
 	opaqueSig map[string]string
 	specCache2 map[string][]specEntry
 	readTrace []*readRec
